@@ -99,7 +99,12 @@ def generate(seed, tier):
                 inl.append(progs.strip({"t": "soft", "e": gi.bool_expr(own0, 1)}))
             if has_dyn and rng.random() < 0.3:
                 inl.append(progs.EXPR({"t": "dynref", "n": "dyn0", "p": []}))
-            ops.append({"op": "rw", "p": p, "inline": inl})
+            if rng.random() < 0.25:
+                # the free-function form has its own enter/exit code around the same shared stacks
+                ops.append({"op": "frw", "p": p, "targets": [[p, []]], "ctx": p, "inline": inl,
+                            "k": st.lib.randint(0, 1 << 30)})
+            else:
+                ops.append({"op": "rw", "p": p, "inline": inl})
         elif r < 0.85 and not late_done:
             ops.append({"op": "newprog", "prog": late})
             late_done = True
@@ -181,7 +186,7 @@ def run_world(rec, tagn, fault=None, skip=None, record_sites=False):
             op["inline"] = list(op.get("inline") or []) + contradiction_for(pt.env.prog, pt.cname)
         s0 = w.site_no
         n_before = len(w.parties)
-        lens0 = _list_lengths(w.tree(op["p"])) if op["op"] in ("randomize", "rw") else None
+        lens0 = _list_lengths(_safe_tree(w, op["p"])) if op["op"] in ("randomize", "rw") else None
         out = w.apply(op)
         if len(w.parties) > n_before:
             # every party gets an explicit random state right after creation
@@ -189,8 +194,8 @@ def run_world(rec, tagn, fault=None, skip=None, record_sites=False):
                 kernel.H(rec["norm_seed"], "party", len(w.parties))))
         op_sites.append((oi, s0 + 1, w.site_no))
         entry = (oi, op["op"], out["st"], out.get("exc"))
-        if op["op"] in ("randomize", "rw") and out["st"] in ("ok", "solvefail") and "p" in op:
-            entry = entry + (w.tree(op["p"]),)
+        if op["op"] in ("randomize", "rw", "frw") and out["st"] in ("ok", "solvefail") and "p" in op:
+            entry = entry + (_safe_tree(w, op["p"]),)
         faulted_now = (out["st"] == "fault") or (unsat_here and post is None)
         if faulted_now and (post is None or (fault and fault[0] == "sites")):
             k_fault = oi
@@ -201,7 +206,7 @@ def run_world(rec, tagn, fault=None, skip=None, record_sites=False):
             if out["st"] == "solvefail" and lens0 is not None:
                 # nothing was solved: storage the library added to give the solver room is
                 # temporary state of the call, the lists must be as long as before
-                lens1 = _list_lengths(w.tree(op["p"]))
+                lens1 = _list_lengths(_safe_tree(w, op["p"]))
                 if lens1 != lens0:
                     post["residue"] = list(post["residue"]) + [
                         "list %s: length %s before the failed call, %s after" % (k_, lens0.get(k_), v_)
@@ -214,6 +219,15 @@ def run_world(rec, tagn, fault=None, skip=None, record_sites=False):
     return {"trace": trace, "sites": list(w.sites_seen), "op_sites": op_sites, "post": post, "posts": posts,
             "fired": dict(w.faults_fired), "k": k_fault, "idle_end": randworld.global_state(),
             "sim_ms": int(w.clock.elapsed * 1000)}
+
+
+def _safe_tree(w, p):
+    """a poisoned library (e.g. expression mode left on) makes plain attribute reads misbehave:
+    that must surface as a difference / non-idle state, not as a harness error"""
+    try:
+        return w.tree(p)
+    except Exception as e:      # noqa
+        return {"__unreadable__": type(e).__name__}
 
 
 def _list_lengths(tree, base="", out=None):
@@ -313,7 +327,9 @@ def execute(rec):
             detail["idle"] = post["idle"]
             report({"inv": "C16.global_not_idle", "detail": detail,
                     "cls": "C16.global_not_idle/%s/%s" % (fk, skind), "fault": [kind, n, skind]})
-            continue
+            # the shared stacks are process-global: every later world of this run would start
+            # from the poisoned state and only repeat this finding under other site names
+            break
         if post["residue"]:
             detail["residue"] = post["residue"][:8]
             report({"inv": "C16.model_residue", "detail": detail,
